@@ -449,3 +449,301 @@ PROPS["C19"]["assumptions"].append(
     "prefetchfan: a cache hit on loopback is answered within 1 s on this machine (checked by a control burst of the same "
     "shape on entries outside the window; otherwise the case is skipped); a hit blocked behind a stalled refresh waits "
     ">= 2.3 s (slow) / 6 s (silent)")
+
+
+# ---- kind prefetchgrp: the dimension "client groups" (round 3) ----
+# An ip marker file is configured (several labelled ranges + unlabelled space); clients of at least two groups are
+# simulated (DoH listeners take the client address from a header; no header = no valid address; udp/tcp/gnet
+# clients are 127.0.0.1, which some markers label). Group G's entry is inside its last quarter and is hit by G's
+# clients; the other groups have their own entry for the same question or none, and their clients are active
+# meanwhile. Oracle (property text): later hits of the SAME group see the renewed entry (C19); no other group's
+# entry appears or changes (C07); at most one refresh per (question, group); the refresh's upstream query is made on
+# behalf of a hitting client (ECS on: its subnet).
+import ipaddress as _ip
+
+_GRP_BASE = ("# c19 client groups\n"
+             "10.0.0.0,10.255.255.255,lan\n"
+             "\n"
+             "192.168.0.0,192.168.255.255,guest   # visitors\n"
+             "2001:db8::,2001:db8::ffff,lan\n"
+             "172.16.0.0,172.16.255.255,a\n"
+             "172.17.0.0,172.17.255.255,ab\n")
+_GRP_MARKERS = {"base": _GRP_BASE, "loop": _GRP_BASE + "127.0.0.0,127.255.255.255,loop\n"}
+_GRP_HTTP = ("http-post", "fasthttp-get", "http-get", "fasthttp-post")
+
+
+def _grp_num(a):
+    ip = _ip.ip_address(a)
+    if ip.version == 4:
+        return (0xffff << 32) | int(ip)
+    return int(ip)
+
+
+def _grp_parse_marker(text):
+    out = []
+    for line in text.split("\n"):
+        t = line.split("#")[0].strip()
+        if not t:
+            continue
+        a, b, lab = t.split(",", 2)
+        out.append((_grp_num(a), _grp_num(b), lab))
+    return out
+
+
+def _grp_client_addr(cl):
+    l, a = cl.split("@", 1)
+    if not (l.startswith("http") or l.startswith("fasthttp")):
+        return "127.0.0.1"
+    return None if a == "-" else a
+
+
+def _grp_of(ranges, cl):
+    """the client group of 'listener@address' under the marker: label of the range containing the address, '' else"""
+    a = _grp_client_addr(cl)
+    if a is None:
+        return ""
+    x = _grp_num(a)
+    for lo, hi, lab in ranges:
+        if lo <= x <= hi:
+            return lab
+    return ""
+
+
+def _grp_rand_addr(rng, role):
+    if role == "lan":
+        k = rng.random()
+        if k < 0.5:
+            return "10.%d.%d.%d" % (rng.randint(0, 255), rng.randint(0, 255), rng.randint(0, 255))
+        if k < 0.7:
+            return "2001:db8::%x" % rng.randint(0, 0xffff)
+        if k < 0.85:
+            return "::ffff:10.%d.%d.%d" % (rng.randint(0, 255), rng.randint(0, 255), rng.randint(0, 255))
+        return rng.choice(["10.0.0.0", "10.255.255.255", "2001:db8::", "2001:db8::ffff"])
+    if role == "guest":
+        return rng.choice(["192.168.0.0", "192.168.255.255", "192.168.1.1",
+                           "192.168.%d.%d" % (rng.randint(0, 255), rng.randint(0, 255))])
+    if role == "a":
+        return "172.16.%d.%d" % (rng.randint(0, 255), rng.randint(0, 255))
+    if role == "ab":
+        return "172.17.%d.%d" % (rng.randint(0, 255), rng.randint(0, 255))
+    if role == "loopaddr":
+        return "127.%d.%d.%d" % (rng.randint(0, 255), rng.randint(0, 255), rng.randint(1, 254))
+    if role == "out":      # valid, in no range (some right next to one)
+        return rng.choice(["8.8.8.8", "9.9.9.9", "11.0.0.0", "9.255.255.255", "192.169.0.0", "172.18.0.0", "172.15.255.255",
+                           "2001:db8::1:0", "2001:db9::1", "::ffff:11.1.1.1", "203.0.113.%d" % rng.randint(1, 254)])
+    raise ValueError(role)
+
+
+def _grp_clients(rng, role, n, marker):
+    """n clients 'listener@address' of one group"""
+    out = []
+    for i in range(n):
+        if role == "loop":       # marker 'loop': the socket listeners' clients are labelled
+            l = rng.choice(["udp", "tcp", "gnet", "http-post", "fasthttp-get"]) if i >= 3 else ["udp", "tcp", "gnet"][i]
+            out.append("%s@%s" % (l, _grp_rand_addr(rng, "loopaddr") if l in _GRP_HTTP else "127.0.0.1"))
+        elif role == "none-valid":
+            if marker == "base" and rng.random() < 0.4:
+                out.append("%s@127.0.0.1" % rng.choice(["udp", "tcp", "gnet"]))
+            else:
+                out.append("%s@%s" % (rng.choice(_GRP_HTTP), _grp_rand_addr(rng, "out")))
+        elif role == "none-invalid":
+            out.append("%s@-" % rng.choice(_GRP_HTTP))
+        elif role == "none":     # both kinds (only for groups that do not hit in the window)
+            out.append(_grp_clients(rng, rng.choice(["none-valid", "none-invalid"]), 1, marker)[0])
+        else:
+            out.append("%s@%s" % (rng.choice(_GRP_HTTP), _grp_rand_addr(rng, role)))
+    return out
+
+
+def c19_grp_gen(rng, tier):
+    # (mode, upstream, ecs, marker, hitting role, number of hitting clients, [(other role, state)])
+    base = [
+        ("slow", "u", 0, "base", "lan", 3, [("guest", "fresh"), ("none", "absent")]),
+        ("slow", "t", 1, "base", "lan", 8, [("guest", "absent"), ("none", "fresh"), ("a", "fresh"), ("ab", "absent")]),
+        ("slow", "u", 1, "loop", "loop", 4, [("none", "absent"), ("lan", "fresh")]),
+        ("slow", "u", 1, "base", "lan", 20, [("guest", "absent"), ("none", "absent")]),
+        ("slow", "t", 0, "base", "ab", 2, [("a", "fresh"), ("none", "absent")]),
+        ("slow", "u", 1, "base", "a", 2, [("ab", "absent"), ("none", "absent"), ("lan", "fresh")]),
+        ("slow", "u", 0, "base", "none-valid", 3, [("lan", "fresh"), ("guest", "absent")]),
+        ("slow", "t", 1, "base", "none-invalid", 3, [("lan", "absent"), ("guest", "fresh")]),
+        ("slow", "u", 1, "base", "lan", 3, [("guest", "window"), ("none", "absent")]),
+        ("slow", "t", 0, "loop", "guest", 2, [("loop", "window"), ("lan", "window"), ("none", "absent")]),
+        ("slow", "u", 1, "base", "a", 2, [("none-invalid", "window"), ("ab", "fresh")]),
+        ("fast", "u", 0, "base", "guest", 1, [("lan", "fresh"), ("none", "absent")]),
+        ("fast", "t", 1, "base", "lan", 1, [("guest", "absent"), ("none", "absent")]),
+        ("neg", "u", 0, "base", "lan", 1, [("none", "absent"), ("guest", "fresh")]),
+        ("neg", "t", 1, "loop", "loop", 1, [("none", "absent"), ("lan", "absent")]),
+        ("fail", "t", 0, "base", "guest", 1, [("none", "absent"), ("lan", "fresh")]),
+        ("fail", "t", 1, "base", "lan", 2, [("none", "absent")]),
+    ]
+    roles = ["lan", "guest", "a", "ab", "none"]
+    extra = budget(tier, 2, 30)
+    for _ in range(extra):
+        marker = rng.choice(["base", "base", "loop"])
+        g = rng.choice(["lan", "lan", "guest", "a", "ab", "none-valid", "none-invalid"] + (["loop"] * 2 if marker == "loop" else []))
+        gg = "none" if g.startswith("none") else g
+        rest = [r for r in roles + (["loop"] if marker == "loop" else []) if r != gg]
+        rng.shuffle(rest)
+        mode = rng.choice(["slow", "slow", "slow", "fast", "neg", "fail"])
+        oth = [(r, rng.choice(["fresh", "absent"] + (["window"] if mode == "slow" else []))) for r in rest[:rng.randint(1, 3)]]
+        oth = [((rng.choice(["none-valid", "none-invalid"]) if (r == "none" and st == "window") else r), st) for r, st in oth]
+        up = "t" if mode == "fail" else rng.choice("ut")
+        n = 1 if mode != "slow" else rng.choice([1, 2, 5, 12])
+        base.append((mode, up, rng.randint(0, 1), marker, g, n, oth))
+    out = []
+    for i, (mode, up, ecs, marker, g, n, oth) in enumerate(base):
+        text = _GRP_MARKERS[marker]
+        ranges = _grp_parse_marker(text)
+        hit = _grp_clients(rng, g, n, marker)
+        later = _grp_clients(rng, g, 3, marker)
+        gl = _grp_of(ranges, hit[0])
+        assert all(_grp_of(ranges, c) == gl for c in hit + later), (g, hit, later)
+        seen = {gl}
+        os_ = []
+        for role, st in oth:
+            cs = _grp_clients(rng, role, rng.randint(1, 3), marker)
+            ol = _grp_of(ranges, cs[0])
+            assert all(_grp_of(ranges, c) == ol for c in cs) and ol not in seen, (role, cs, seen)
+            seen.add(ol)
+            os_.append("%s:%s" % (st, "+".join(cs)))
+        tag = bytes(rng.choice(b"abcdefghijklmnopqrstuvwxyz0123456789") for _ in range(8))
+        delay = {"slow": 1200, "fast": 0, "neg": 100, "fail": 0}[mode]
+        out.append("g%d mode=%s up=%s ecs=%d mk=%s hit=%s later=%s oth=%s delay=%d tag=%s stagger=%d" % (
+            i, mode, up, ecs, gens.hx(text.encode()), "+".join(hit), "+".join(later), ",".join(os_) or "-", delay,
+            gens.hx(tag), 100 * (i % 16)))
+    return out
+
+
+def _grp_case(line):
+    f = gens.fields(line)
+    text = bytes.fromhex(f["mk"]).decode() if f.get("mk", "-") not in ("-", "") else ""
+    ranges = _grp_parse_marker(text)
+    hit = f["hit"].split("+")
+    later = f["later"].split("+")
+    oth = []
+    if f.get("oth", "-") != "-":
+        for o in f["oth"].split(","):
+            st, cl = o.split(":", 1)
+            oth.append((st, cl.split("+")))
+    return f, ranges, hit, later, oth
+
+
+def c19_grp_oracle(line, res):
+    """independent of the model: what the property text demands of the observed run"""
+    r = gens.fields(res)
+    if r.get("timing") != "ok":
+        return None
+    f, ranges, hit, later, oth = _grp_case(line)
+    mode = f["mode"]
+    g = _grp_of(ranges, hit[0])
+    gname = "'%s'" % g
+    nfresh = sum(1 for st, _ in oth if st == "fresh")
+    mfresh = sum(len(cs) for st, cs in oth if st in ("fresh", "window"))
+    nwin = sum(1 for st, _ in oth if st == "window")     # groups whose own entry is in its last quarter as well
+    nref = 1 + nwin
+    if r.get("setup") != "%d/%d" % (nfresh, nfresh) or r.get("setup_up") != str(nfresh):
+        return ("setup: the first query of %d client groups that never asked before: %s answered by the upstream, %s upstream "
+                "queries (an answer cached for one group was served to another)" % (nfresh, r.get("setup"), r.get("setup_up")))
+    if r.get("ans") != "%d/%d" % (len(hit), len(hit)):
+        return "hits of group %s inside the last quarter of its entry: %s answered with the group's cached answer" % (gname, r.get("ans"))
+    if r.get("oth") != "%d/%d" % (mfresh, mfresh):
+        return "concurrent hits of the other groups on their own entries: %s answered with their own answer" % r.get("oth")
+    if mode == "slow":
+        if int(r.get("up_mid", "0")) > nref:
+            return "%s refresh queries for concurrent hits of %d (question, group) pairs inside their last quarter (at most one each)" % (
+                r.get("up_mid"), nref)
+        if int(r.get("infl_mid", "0")) > nref:
+            return "in-flight set has %s keys while the refreshes of %d groups are running" % (r.get("infl_mid"), nref)
+    if r.get("infl_end") != "0":
+        return "the key stayed in flight after the refresh ended"
+    if int(r.get("up_end", "0")) > nref:
+        return "%s upstream queries for %d refreshes (one per (question, group))" % (r.get("up_end"), nref)
+    ls = (r.get("later") or "").split(",")
+    if mode in ("slow", "fast"):
+        if ls != ["B:r"] * len(later):
+            return ("after a successful refresh started by a hit of group %s, later hits of the SAME group got %s "
+                    "(expected the refreshed answer with a renewed TTL for each: the refresh was not stored under the "
+                    "group of the hit that started it)" % (gname, r.get("later")))
+        if int(r.get("up_after", "0")) > nref:
+            return "%s upstream queries in total for %d refreshes: a hit on the renewed entry started another refresh" % (r.get("up_after"), nref)
+    else:
+        if ls[:1] != ["A:a"]:
+            return "after a %s refresh the group's old entry is not served unchanged (%s)" % (
+                "negative" if mode == "neg" else "failed", r.get("later"))
+        if r.get("up2") != "1":
+            return "%s refresh queries for the next hit in the window" % r.get("up2")
+        if ls[1:] != ["B:r"] * (len(later) - 1):
+            return "after the second (successful) refresh later hits of group %s got %s" % (gname, r.get("later"))
+    oa = (r.get("oth_after") or "-")
+    oa = [] if oa == "-" else oa.split(",")
+    if len(oa) != len(oth):
+        return "unparsable result"
+    nabs = 0
+    for (st, cs), got in zip(oth, oa):
+        og = "'%s'" % _grp_of(ranges, cs[0])
+        if st == "window":
+            if got != "B" * len(cs):
+                return ("group %s's own entry was inside its last quarter and hit by its clients at the same time as group %s's: "
+                        "after both refreshes its clients got %s (its own successful refresh must renew ITS entry)" % (og, gname, got))
+        elif st == "fresh":
+            if got != "C" * len(cs):
+                return ("group %s had its own cached answer for the question; after the refresh started by group %s its clients "
+                        "got %s (another group's refresh changed or replaced its entry)" % (og, gname, got))
+        else:
+            nabs += 1
+            if got != "D" * len(cs):
+                return ("group %s never asked the question, yet after the refresh started by a hit of group %s its clients got %s "
+                        "instead of the upstream's current answer D: a cached answer went to a different client group" % (og, gname, got))
+    if r.get("oth_up") != str(nabs):
+        return "%s upstream queries for the first questions of %d groups without an entry" % (r.get("oth_up"), nabs)
+    want_ecs = "+".join(sorted(("own" if (f["ecs"] == "1" and _grp_client_addr(cs[0]) is not None) else "none")
+                               for cs in [hit] + [cs for st, cs in oth if st == "window"]))
+    if r.get("ecs") != want_ecs and len((r.get("ecs") or "").split("+")) == nref:
+        return ("the refresh queries carry ECS '%s', expected '%s': a refresh must be made on behalf of the client whose hit "
+                "started it (group %s)" % (r.get("ecs"), want_ecs, gname))
+    if r.get("final") != "B:r":
+        return "group %s's renewed entry was disturbed by the other groups' queries (%s)" % (gname, r.get("final"))
+    if r.get("infl_final") != "0":
+        return "%s keys in flight at the end" % r.get("infl_final")
+    if r.get("churn_bad") != "0":
+        return "%s answers to clients of other groups during the refresh were not their own group's" % r.get("churn_bad")
+    return None
+
+
+def c19_grp_compare(ir, mr):
+    if ir.startswith("timing=bad"):
+        return True
+    return ir == mr
+
+
+def c19_grp_classify(line, res):
+    try:
+        f, ranges, hit, later, oth = _grp_case(line)
+    except Exception:
+        return "unparsed"
+    g = _grp_of(ranges, hit[0])
+    gk = "G=labelled" if g else ("G=unlabelled" if _grp_client_addr(hit[0]) is not None else "G=no-address")
+    sock = "+socket-clients" if any(not (c.startswith("http") or c.startswith("fasthttp")) for c in hit) else ""
+    return "%s %s%s ecs=%s others=%s%s" % (f.get("mode", "?"), gk, sock, f.get("ecs"),
+                                           "+".join(sorted(set(st for st, _ in oth))) or "-",
+                                           "" if res.startswith("timing=ok") else " timing-bad-skipped")
+
+
+PROPS["C19"]["kinds"].append(dict(name="prefetchgrp", gen=c19_grp_gen, oracle=c19_grp_oracle, compare=c19_grp_compare,
+                                  classify=c19_grp_classify, nontrivial=lambda l, r: r.startswith("timing=ok"), timeout=300))
+PROPS["C19"]["rule"] += ("; prefetchgrp: one real-clock scenario per case on a private in-process router with an ip marker file "
+                         "(labelled ranges + unlabelled space, optionally ECS): clients of >= 2 client groups (DoH client-address "
+                         "header, no header, socket listeners), one group's entry inside its last quarter hit by its clients "
+                         "while the other groups (own entry / none) are active, upstream slow / fast / negative / failing; "
+                         "later hits of the same group see the renewed entry, no other group's view changes, one refresh per "
+                         "(question, group), refresh query on behalf of a hitting client")
+PROPS["C19"]["assumptions"].append(
+    "prefetchgrp: the DoH listeners are configured with a client-address header (the harness plays the trusted front-end); "
+    "the fake upstream's answer depends on the question only, so a group's view is identified by which scripted answer "
+    "(A, B, C, D) it is served")
+PROPS["C19"]["level_note"] += ("; client groups (round 3): the (question, group) key is explicit in Router/PrefetchGroups.v "
+                               "(group = ip-marker label through C07's mark_of): a successful refresh stores under the key of the "
+                               "hit that started it, every client of that group sees the renewed entry, no other group's view "
+                               "changes (proved); that the Go goroutine really carries the client address as a value copied at "
+                               "spawn time (and not the pooled request context) is tested by kind prefetchgrp, and the re-reading "
+                               "design is refuted on the model")
